@@ -660,6 +660,10 @@ class ExcelCompiler:
                 if isinstance(cell, _Cell) and cell.python_code and (
                         not cell.address.is_unbounded_range):
                     original_value = cell.value
+                    if self.cycles and not self._values_changed:
+                        # evaluating a dependant has already recalculated this
+                        # cell, verify the result which the workbook stores
+                        original_value = self.excel.get_range(cell.address).values
                     if original_value == str(cell.formula):
                         self.log.debug(f"No Orig data?: {addr}: {cell.value}")
                         continue
